@@ -67,7 +67,39 @@ def sweep(ctx, names):
     return ops
 
 
+def big_replies():
+    """replies larger than every internal buffer (4 KiB reader buffer, the writer's growing buffer), each
+    on a fresh connection and again on a used one: GET of 4095..100000 bytes, MGET of several large
+    values, LRANGE / SMEMBERS / HGETALL / ZRANGE WITHSCORES of thousands of elements, all inside
+    and outside MULTI, each followed by a small command whose reply must still be in place"""
+    c = lambda conn, *a: f"resp {conn} " + " ".join(a)
+    ops = ["open a mem"]
+    sizes = [4095, 4096, 4097, 8185, 8186, 8187, 8192, 16384, 20000, 65536, 100000]
+    ops += [f"conn b{i}" for i in range(len(sizes) + 4)]
+    for i, n in enumerate(sizes):
+        k = hx(b"big%d" % n)
+        ops += [c("b0", hx(b"SET"), k, "r%dx%02x" % (n, 97 + i % 26))]
+        ops += [c(f"b{i+1}", hx(b"GET"), k), c(f"b{i+1}", hx(b"STRLEN"), k), c(f"b{i+1}", hx(b"GET"), k), c(f"b{i+1}", hx(b"ECHO"), hx(b"after"))]
+    two = [hx(b"big8186"), hx(b"big65536")]
+    ops += [c("b0", hx(b"MGET"), *two, hx(b"nokey"), two[0]), c("b0", hx(b"PING"))]
+    ops += [c("b12", hx(b"MULTI")), c("b12", hx(b"GET"), two[1]), c("b12", hx(b"GET"), two[0]), c("b12", hx(b"STRLEN"), two[0]), c("b12", hx(b"EXEC")), c("b12", hx(b"PING"))]
+    for j in range(0, 3000, 250):
+        ops.append(c("b0", hx(b"RPUSH"), hx(b"biglist"), *[hx(b"element-%05d" % x) for x in range(j, j + 250)]))
+        ops.append(c("b0", hx(b"SADD"), hx(b"bigset"), *[hx(b"member-%05d" % x) for x in range(j, j + 250)]))
+        ops.append(c("b0", hx(b"HSET"), hx(b"bighash"), *[hx((b"f%05d" if y == 0 else b"value-%05d") % x) for x in range(j, j + 250) for y in (0, 1)]))
+        ops.append(c("b0", hx(b"ZADD"), hx(b"bigz"), *[t for x in range(j, j + 250) for t in (hx(b"%d" % x), hx(b"m%05d" % x))]))
+    ops += [c("b13", hx(b"LRANGE"), hx(b"biglist"), hx(b"0"), hx(b"-1")), c("b13", hx(b"LLEN"), hx(b"biglist")),
+            c("b13", hx(b"SMEMBERS"), hx(b"bigset")), c("b13", hx(b"SCARD"), hx(b"bigset")),
+            c("b14", hx(b"HGETALL"), hx(b"bighash")), c("b14", hx(b"HLEN"), hx(b"bighash")),
+            c("b14", hx(b"ZRANGE"), hx(b"bigz"), hx(b"0"), hx(b"-1"), hx(b"WITHSCORES")), c("b14", hx(b"ZCARD"), hx(b"bigz")),
+            c("b14", hx(b"KEYS"), hx(b"*")), c("b14", hx(b"ECHO"), "r30000x7a"), c("b14", hx(b"PING"))]
+    return ops
+
+
 def run(ctx, proofs_ok):
+    vlib.correspond_stream(ctx, vlib.build_harness(ctx), big_replies(), "big", "replies larger than every internal buffer, on fresh and used connections, inside and outside MULTI")
+    if ctx.violations:
+        return
     apicheck.run_resp_streams(ctx, [
         {"label": "all command families on one connection (every reply token compared with the model)", "fams": ["strings", "keyspace", "lists", "hashes", "sets", "zs"],
          "n": (4000, 12000), "count": (3, 30), "conns": 1},
